@@ -42,7 +42,7 @@ def generate(rng: random.Random, tier: str):
     for r in range(1, top + 1):
         for e in range(1, top + 1):
             cases.append({'kind': 'fft', 'shape': [r], 'dim': [0], 'recon': [r], 'enc': [e], 'seed': r * 31 + e})
-    flavours = ['cart_jitter', 'cart_full', 'cart_permuted', 'cart_undersampled', 'cart_dup', 'cart_2d', 'cart_1d', 'cart_per_other', 'partial_grid',
+    flavours = ['cart_jitter', 'cart_full', 'cart_permuted', 'cart_interleaved', 'cart_undersampled', 'cart_dup', 'cart_2d', 'cart_1d', 'cart_per_other', 'partial_grid',
                 'radial2d', 'random2d', 'random3d', 'random1d']
     for _ in range(120 if thorough else 36):
         cases.append(gen_fourier(rng, rng.choice(flavours)))
@@ -80,6 +80,12 @@ def gen_fourier(rng, flavour):
                 vals = [0]
             elif flavour in ('cart_permuted', 'cart_jitter') and pos != 3:
                 rng.shuffle(vals)
+            elif flavour == 'cart_interleaved' and pos != 3 and n >= 4:
+                # every line once, lowest first and highest last, interleaved in between (e.g. even lines, then odd lines)
+                mid = vals[2:-1:2] + vals[1:-1:2]
+                while mid == vals[1:-1]:
+                    rng.shuffle(mid)
+                vals = [vals[0], *mid, vals[-1]]
             elif flavour == 'cart_undersampled' and pos != 3:
                 vals = sorted(rng.sample(vals, max(1, n - rng.randint(1, 2))))
             elif flavour == 'cart_dup' and pos != 3:
